@@ -190,6 +190,8 @@ PublishedComplete == Protocol = "rename" => \A w \in {"fai", "agp"} : fs[Pub(w)]
 \* moment one process finishes while others are mid-run - per distinct state in which a process has just finished
 JustFinished == \E p \in Procs : pc[p] \in {"done", "error"} /\ last = p /\ ~Quiet
 \* priority for sampling: a run that LOADED the cache although an earlier run crashed or the FASTA was rewritten is where staleness shows
-Risky == (\E p \in Procs : pc[p] = "done" /\ res[p].kind = "loaded") /\ (\E q \in 1..Len(hist) : hist[q][1] \in {"c", "r"})
+Risky == /\ \E p \in Procs : pc[p] = "done" /\ res[p].kind = "loaded"
+         /\ \/ \E q \in 1..Len(hist) : hist[q][1] \in {"c", "r"}
+            \/ switches > 0                                              \* ... or after / while another process was writing
 Emit == ((Quiet /\ starts > 0) \/ JustFinished) => PrintT(ToJson([h |-> hist, pri |-> IF Risky THEN 1 ELSE 0]))
 ====
